@@ -18,6 +18,7 @@ CONSTANTS
   AllowDrop = FALSE
   AllowBnShare = FALSE
   PlainOps = {"relu", "pool", "flat", "add"}
+  Biases = {TRUE, FALSE}
   AllowFindings = FALSE
   MaxHist = 2
 VIEW ViewNoHist
